@@ -57,6 +57,16 @@ theorem C20_shows_asUTC (z : Zone) (t : Int) :
   rw [C20_days_civil_days]
   omega
 
+/-- two instants at which a location shows the same wall clock under the same offset are the same instant: within one
+offset era a wall clock reading denotes at most one instant (two readings an hour apart at the end of DST differ in
+their offset) -/
+theorem C20_shown_clock_determines_instant (z : Zone) (t₁ t₂ : Int)
+    (hw : Spec.C20.shows z t₁ = Spec.C20.shows z t₂) (ho : lookupOffset z t₁ = lookupOffset z t₂) : t₁ = t₂ := by
+  have h1 := C20_shows_asUTC z t₁
+  have h2 := C20_shows_asUTC z t₂
+  rw [hw] at h1
+  omega
+
 /-- **C20_emit_same_instant**: with EmitTimezones, the wall clock and offset that `formatTimestamp` prints
 (`Model.Rfc3339.fields`, rendered by `format`) denote the stored instant — wall clock read as UTC minus the printed
 offset is `t` — and the offset is the one the location has at that instant. For every location table and instant. -/
